@@ -17,7 +17,7 @@ def run(tier: str, seed: int) -> Report:
         "ex() on eager frames). NONTRIVIAL = the call returned on a non-raising path and (I) every caller-owned input frame was "
         "compared with its deep pre-call snapshot (values, dtypes, column index, row index; Polars: values + schema) and (R) the "
         "second result was compared with the first (the repeat comparison is omitted, and the evaluation counted as ok-mutation-only, "
-        "when the data make the pipeline's result undetermined: ties in a window ordering or a mid-chain limit cutting through ties). "
+        "when the data make the pipeline's result undetermined: ties in a window ordering, a mid-chain limit cutting through ties, or convert_records input that violates its keying / complete-blocks requirement). "
         "Calls that raised still have their inputs checked and are counted as raised."
         % (sc["depths"], sc["max_rows"])
     )
